@@ -341,7 +341,15 @@ class Enumerator:
     def s_AnnAssign(self, s, st):
         if s.value is None:
             return [(st, FALL)]
-        return self.ev(s.value, st, lambda st2, v: self.store(s.target, v, st2, s, lambda st3: [(st3, FALL)]))
+
+        def k(st2, v):
+            if isinstance(v, (ast.Dict, ast.List, ast.Set)) and isinstance(s.target, ast.Name) and isinstance(s.value, (ast.Dict, ast.List, ast.Set)):
+                ev = Ev("alloc", v, s, st2.fn, {"name": s.target.id})
+                st2 = st2.emit(ev)
+                v = N(f"$l{ev.idx}")
+            return self.store(s.target, v, st2, s, lambda st3: [(st3, FALL)])
+
+        return self.ev(s.value, st, k)
 
     def s_AugAssign(self, s, st):
         load = _as_load(s.target)
@@ -732,7 +740,13 @@ class Enumerator:
         return k(st, n)
 
     def e_Name(self, n, st, k):
-        return k(st, st.env.get(n.id, n))
+        if n.id in st.env:
+            return k(st, st.env[n.id])
+        if self.r is not None:
+            c = self.r.constant_tuple(n.id, st.fn)
+            if c is not None:
+                return k(st, c)
+        return k(st, n)
 
     def e_Attribute(self, n, st, k):
         def ka(st2, v):
@@ -785,7 +799,21 @@ class Enumerator:
         return self.ev_list(nodes, st, kd)
 
     def e_JoinedStr(self, n, st, k):
-        return self.ev_list(list(n.values), st, lambda st2, v: k(st2, ast.JoinedStr(values=v)))
+        def kj(st2, vals):
+            out = []
+            for v in vals:
+                if isinstance(v, ast.FormattedValue) and isinstance(v.value, ast.Constant) and isinstance(v.value.value, str) \
+                        and v.conversion == -1 and v.format_spec is None:
+                    v = ast.Constant(value=v.value.value)
+                if isinstance(v, ast.Constant) and isinstance(v.value, str) and out and isinstance(out[-1], ast.Constant) and isinstance(out[-1].value, str):
+                    out[-1] = ast.Constant(value=out[-1].value + v.value)
+                else:
+                    out.append(v)
+            if len(out) == 1 and isinstance(out[0], ast.Constant):
+                return k(st2, out[0])
+            return k(st2, ast.JoinedStr(values=out))
+
+        return self.ev_list(list(n.values), st, kj)
 
     def e_FormattedValue(self, n, st, k):
         return self.ev(n.value, st, lambda st2, v: k(st2, ast.FormattedValue(
@@ -843,6 +871,17 @@ class Enumerator:
         return self.ev(n.value, st, ky)
 
     def e_YieldFrom(self, n, st, k):
+        # `yield from helper(...)` where helper is an inlinable generator: its yields become ours
+        if isinstance(n.value, ast.Call):
+            self._allow_generator = True
+            try:
+                marker = len(st.events)
+                res = self.e_Call(n.value, st, lambda st2, v: k(st2.emit(Ev("yield", v, n, st2.fn, {"from": True, "inlined": _was_inlined(st2, marker)})), N(f"$y{len(st2.events)}"))
+                                  if not _was_inlined(st2, marker) else k(st2, ast.Constant(value=None)))
+            finally:
+                self._allow_generator = False
+            return res
+
         def ky(st2, v):
             st3 = st2.emit(Ev("yield", v, n, st2.fn, {"from": True}))
             return k(st3, N(f"$y{len(st3.events)}"))
@@ -937,7 +976,8 @@ class Enumerator:
             return None
         if isinstance(callee.node, ast.Lambda):
             return None
-        if any(isinstance(x, (ast.Yield, ast.YieldFrom)) for x in ast.walk(callee.node)):
+        if not getattr(self, "_allow_generator", False) and any(
+                isinstance(x, (ast.Yield, ast.YieldFrom)) for x in _own_nodes_of(callee.node)):
             return None
         if not self.inline_pred(callee, depth, node):
             return None
@@ -1025,6 +1065,25 @@ class _Subst(ast.NodeTransformer):
         if isinstance(node.ctx, ast.Load) and node.id in self.env:
             return self.env[node.id]
         return node
+
+
+def _own_nodes_of(fnode):
+    stack = list(ast.iter_child_nodes(fnode))
+    while stack:
+        n = stack.pop()
+        yield n
+        if isinstance(n, (ast.FunctionDef, ast.AsyncFunctionDef, ast.ClassDef, ast.Lambda)):
+            continue
+        stack.extend(ast.iter_child_nodes(n))
+
+
+def _was_inlined(st, marker) -> bool:
+    """An `enter` event directly follows the call emitted at/after `marker` => the callee body was inlined."""
+    evs = st.events
+    for i in range(marker, len(evs) - 1):
+        if evs[i].kind == "call" and evs[i + 1].kind == "enter":
+            return True
+    return False
 
 
 def _deepcopy(n):
